@@ -69,7 +69,7 @@ def variants(with_disc, is_card=False):
     return out
 
 
-ENVS = ("nothing", "tag", "tagU", "tagX", "peerT", "peerI", "reader", "ioerror", "unsupported")
+ENVS = ("nothing", "tag", "tagU", "tagX", "peerT", "peerI", "reader", "readerU", "ioerror", "unsupported")
 
 
 def grid(kmax, tmax):
@@ -81,7 +81,7 @@ def grid(kmax, tmax):
                 roles = ("both", "initiator", "target") if (l["has"] and l["su"] == "keep"
                                                             and not l.get("empty")) else ("both",)
                 for e in ENVS:
-                    ks = (0,) if e in ("nothing", "ioerror", "unsupported") else range(kmax + 1)
+                    ks = (0,) if e in ("nothing", "ioerror", "unsupported", "readerU") else range(kmax + 1)
                     for b in beeps:
                         for ro in roles:
                             for k in ks:
@@ -108,7 +108,7 @@ def cfg_id(c):
     return "%s.%s.%s|b%d|%s|%s%s%d|t%d" % (ov("rdwr"), ov("llcp"), ov("card"), c["beep"], c["role"], c["env"],
                                             (c.get("ttype", "") + ("!%(cls)s@%(at)d%(mode)s" % c["fault"] if c.get("fault") else ""))
                                             if c["env"] in TAG_ENVS else "", c["k"], c["termAt"]) + (
-        "|i%dx%g" % tuple(c["sp"]) if c.get("sp") else "")
+        "|i%dx%g" % tuple(c["sp"]) if c.get("sp") else "") + ("|r" + c["rtype"] if c.get("rtype") else "")
 
 
 # ------------------------------------------------------------------------------------------------
@@ -126,6 +126,31 @@ class Timeshift(object):
 
     def __exit__(self, *a):
         nfc.clf.time, nfc.dep.time, nfc.llcp.llc.time = self.saved
+
+
+class ReaderU(clfdev.Nothing):
+    """a reader that discovers our local target, but what listen() returns cannot be emulated by nfc.tag.emulate():
+    rtype "F": 212F polled without a Type 3 Tag command; "A2" / "A4": 106A with a Type 2 / Type 4 Tag command;
+    "D": an NFC-DEP activation of a card-mode target that offers atr_res"""
+
+    def __init__(self, rtype):
+        self.rtype = rtype
+
+    def listen(self, dev, kind, target, timeout):
+        if self.rtype == "F" and kind == "ttf":
+            return dict(brty="212F", sensf_req=b"\x00\xFF\xFF\x01\x00", sensf_res=bytes(target.sensf_res))
+        if self.rtype in ("A2", "A4") and kind == "tta":
+            r = dict(brty="106A", sens_res=bytes(target.sens_res), sdd_res=bytes(target.sdd_res),
+                     sel_res=bytes(target.sel_res))
+            r["tt2_cmd" if self.rtype == "A2" else "tt4_cmd"] = b"\x30\x00" if self.rtype == "A2" else b"\xE0\x80"
+            return r
+        if self.rtype == "D" and kind == "dep":
+            return dict(brty="424F", atr_req=b"\xD4\x00" + clfdev.Peer.NFCID3 + bytes([0, 0, 0, 0x32]) + clfdev.Peer.GB,
+                        atr_res=bytes(target.atr_res), sensf_res=bytes(target.sensf_res), dep_req=b"\xD4\x06\x00\x00\x00")
+        return None
+
+
+RTYPES = ("F", "A2", "A4", "D")
 
 
 class NoListen(clfdev.Nothing):
@@ -157,7 +182,7 @@ def fault_combos():
     return [dict(cls=c, at=a, mode=m) for c in sorted(FAULTS) for a in (1, 2, 3, 4) for m in ("once", "always")]
 
 
-def make_env(name, k, ttype="T2"):
+def make_env(name, k, ttype="T2", rtype="F"):
     if name == "nothing":
         return clfdev.Nothing()
     if name in ("tag", "tagX"):
@@ -170,6 +195,8 @@ def make_env(name, k, ttype="T2"):
         return clfdev.Peer("initiator", k)
     if name == "reader":
         return clfdev.Reader(k)
+    if name == "readerU":
+        return ReaderU(rtype)
     if name == "ioerror":
         return clfdev.Faulty(lambda: IOError(errno.EIO, "simulated host link failure"))
     if name == "unsupported":
@@ -195,7 +222,7 @@ class ConnectRun(object):
         self.activating = False     # inside nfc.tag.activate(): between on-discover and on-connect / the next step
         self.nact = 0               # exchanges (commands and re-senses) of the current activation
         self.fault_fired = False
-        self.dev = clfdev.SimDevice(nfc.clf, make_env(cfg["env"], cfg["k"], cfg.get("ttype", "T2")), clock)
+        self.dev = clfdev.SimDevice(nfc.clf, make_env(cfg["env"], cfg["k"], cfg.get("ttype", "T2"), cfg.get("rtype", "F")), clock)
         self.dev.observer = self.on_driver
         if cfg.get("fault"):
             self.dev.fault_hook = self.fault
@@ -413,8 +440,19 @@ class ConnectRun(object):
             def su_card(target):
                 self.cb("Startup", "card", c["su"]["card"])
                 if c["su"]["card"] == "keep":
-                    target.brty = "212F"
+                    rtype = c.get("rtype", "F") if c["env"] == "readerU" else "F"
                     target.sensf_res = bytearray.fromhex("01" "02FE010203040506" "FFFFFFFFFFFFFFFF" "12FC")
+                    if rtype in ("A2", "A4"):
+                        target.brty = "106A"
+                        target.sens_res, target.sdd_res = bytearray(b"\x01\x01"), bytearray(b"\x08\x01\x02\x03")
+                        target.sel_res = bytearray(b"\x00" if rtype == "A2" else b"\x20")
+                    elif rtype == "D":
+                        target.brty = "212F"
+                        target.atr_res = bytearray(b"\xD5\x01" + clfdev.Peer.NFCID3 + bytes([0, 0, 0, 8, 0x32]) + clfdev.Peer.GB)
+                        target.sens_res, target.sdd_res = bytearray(b"\x01\x01"), bytearray(b"\x08\x01\x02\x03")
+                        target.sel_res = bytearray(b"\x40")
+                    else:
+                        target.brty = "212F"
                     return target
                 return None if c["su"]["card"] == "drop" else "212F"
             kw["card"] = {"on-startup": su_card, "on-discover": recorder("Discover", "card", c["disc"]),
@@ -759,7 +797,7 @@ class McJob(object):
 
 
 W_CONNECT = ["W_RetTrue", "W_RetObj", "W_RetFalse", "W_RetNoneNoOpt", "W_TermInPresence", "W_ReleaseFalseLoops",
-             "W_TagVanished", "W_PeerReleased", "W_ReaderLeft"]
+             "W_TagVanished", "W_PeerReleased", "W_ReaderLeft", "W_NotEmulatable"]
 W_SENSE = ["W_BadArgAfterValid", "W_Paused", "W_NoPauseLongCycle", "W_Second", "W_RaiseUnsupported", "W_IgnoredUnsupported", "W_StaleDropped", "W_ValueError",
            "W_NoneMuted", "W_ExchangeNothing", "W_ListenRaisedAfterCapture", "W_SenseRaisedAfterCapture"]
 
@@ -791,7 +829,7 @@ def run(tier, seed):
         # real constants beyond the scaled model: longer budgets and later terminate indexes
         for _ in range(3000):
             c = dict(rnd.choice(full))
-            c["k"] = 0 if c["env"] in ("nothing", "ioerror", "unsupported") else rnd.randint(0, 9)
+            c["k"] = 0 if c["env"] in ("nothing", "ioerror", "unsupported", "readerU") else rnd.randint(0, 9)
             c["termAt"] = rnd.randint(0, 25)
             todo.append(c)
     # "tag of each type": the rdwr branch runs against Type 1 / 2 / 2 (NXP, vendor probing) / 3 / 4A / 4B tags (one type
@@ -802,6 +840,14 @@ def run(tier, seed):
     typed, n = [], 0
     # (a disturbed activation is not combined with rdwr={}: without callbacks its outcome is not observable)
     todo = [c for c in todo if not (c["env"] == "tagX" and c["empty"]["rdwr"])]
+    # what the reader's discovery looks like when it cannot be emulated (a DEP activation only without an llcp option,
+    # which would take it for a peer)
+    nr = 0
+    for i, c in enumerate(todo):
+        if c["env"] == "readerU":
+            nr += 1
+            rts = RTYPES if not c["has"]["llcp"] else RTYPES[:3]
+            todo[i] = dict(c, rtype=rts[nr % len(rts)])
     for c in todo:
         if c["env"] in TAG_ENVS and c["has"]["rdwr"] and c["su"]["rdwr"] == "keep":
             n += 1
